@@ -16,6 +16,16 @@ type updateContext struct {
 	db          *pebble.DB
 	index       uint64
 	leaderIndex *uint64
+	// prevLeaderIndex is the leader index set by the entries of this update preceding the current one (if any).
+	prevLeaderIndex *uint64
+}
+
+// recordedLeaderIndex returns the leader index as recorded before the current entry.
+func (c *updateContext) recordedLeaderIndex() (uint64, error) {
+	if c.prevLeaderIndex != nil {
+		return *c.prevLeaderIndex, nil
+	}
+	return readLocalIndex(c.db, sysLeaderIndex)
 }
 
 func (c *updateContext) EnsureIndexed() error {
@@ -65,6 +75,7 @@ func parseCommand(c *updateContext, entry sm.Entry) (command, error) {
 	if err := cmd.UnmarshalVTUnsafe(entry.Cmd); err != nil {
 		return commandDummy{}, err
 	}
+	c.prevLeaderIndex = c.leaderIndex
 	if cmd.LeaderIndex != nil {
 		c.leaderIndex = cmd.LeaderIndex
 	}
